@@ -1,5 +1,6 @@
 import RtcModel.SctpAssoc
 import RtcModel.SctpSack
+import RtcModel.SctpSend
 import RtcModel.SctpFrag
 import RtcModel.Drv.Util
 namespace RtcModel.Drv.C01
@@ -86,6 +87,32 @@ def doSack (args : List String) : String :=
       let rx := if o.retransmit.isEmpty then "-" else ",".intercalate (o.retransmit.map fun p => s!"{p.1}:{p.2}")
       s!"fr={o.flightReduction} bc={o.bytesCum} bg={o.bytesGap} rtt={rtt} rx={rx} hm={b01 o.headMoved} mr={o.maxReported} | " ++
         " ".intercalate (r.1.map showRec)
+    | _, _, _, _, _ => "bad-args"
+  | _ => "bad-args"
+
+/-- `hsack <peerCumAck> <lastSig> <maxrtx> <held (oracle only)> rec … / cum,arwnd,gaps …`: a history of SACKs through
+`handle_sack`; per SACK: peer_rwnd, peer_cumulative_ack, flight, retransmitted bytes, the queue -/
+def doHsack (args : List String) : String :=
+  match args with
+  | pc :: ls :: mx :: _held :: rest =>
+    let recT := rest.takeWhile (· ≠ "/")
+    let sackT := (rest.dropWhile (· ≠ "/")).drop 1
+    let sacks := sackT.mapM fun t =>
+      match t.splitOn ";" with
+      | [c, a, g] => do some (← u32? c, ← a.toNat?, ← parseGapsArg g)
+      | _ => none
+    match u32? pc, ls.toNat?, mx.toNat?, (recT.filter (· ≠ "-")).mapM parseRec, sacks with
+    | some pc, some ls, some mx, some q, some sacks =>
+      let fl := ((q.filter (·.inFlight)).map (·.len)).sum
+      let init : Tx × SackHist × List String :=
+        ({ sentQ := q, flight := fl, cwnd := 100000, peerRwnd := 100000 }, { peerCumAck := pc, lastSig := UInt64.ofNat ls }, [])
+      let r := sacks.foldl (fun (st : Tx × SackHist × List String) k =>
+        let x := handleSackTx st.1 st.2.1 k.1 k.2.1 k.2.2 100000 mx
+        let rexb := (x.2.2.map fun | .rexmit _ l => l | _ => 0).sum
+        let showN (r : SRec) := showRec { r with sentMs := if r.sentMs ≥ 50000 then 0 else r.sentMs,
+                                                  frMs := r.frMs.map fun v => if v ≥ 50000 then 0 else v }
+        (x.1, x.2.1, st.2.2 ++ [s!"rw={x.1.peerRwnd} pc={x.2.1.peerCumAck} fl={x.1.flight} rexb={rexb} q={" ".intercalate (x.1.sentQ.map showN)}"])) init
+      " | ".intercalate r.2.2
     | _, _, _, _, _ => "bad-args"
   | _ => "bad-args"
 
@@ -176,6 +203,8 @@ def doRx (args : List String) : String :=
               if e.cleaned then (e, none)
               else if t = "L" then go (loopTop e) more
               else if t = "W" then go (onTransmitMark e) more
+              else if t = "Z" then go (localClose e) more
+              else if t = "F" then go (finishEp e) more
               else match fields t with
                 | ["R", hx] =>
                   match unhex hx with
@@ -201,6 +230,7 @@ def handle (stream : String) (args : List String) : String :=
   match stream with
   | "gap" => doGap args
   | "sack" => doSack args
+  | "hsack" => doHsack args
   | "istream" => doIstream args
   | "frag" => doFrag args
   | "rx" => doRx args
